@@ -121,6 +121,8 @@ type Case struct {
 	CancelMs     int `json:"cancelMs,omitempty"`
 	SleepMs      int `json:"sleepMs,omitempty"`
 	ChildSleepMs int `json:"childSleepMs,omitempty"`
+	// ChildDetached: the descendant holding the pipes has left the plugin's session and process group
+	ChildDetached bool `json:"childDetached,omitempty"`
 
 	want any // the generated response struct (nil after a replay: then decoded from Reply)
 }
@@ -520,7 +522,7 @@ func prepare(c *Case) (*sandbox, error) {
 	}
 	b := map[string]any{"exit": c.Exit, "kill": c.Kill, "stdout": c.Stdout, "stderr": c.Stderr, "marker": sb.marker,
 		"padStdout": c.PadStdout, "padStderr": c.PadStderr, "padStdoutKey": c.PadStdoutKey, "padStderrKey": c.PadStderrKey,
-		"sleepMs": c.SleepMs, "childSleepMs": c.ChildSleepMs, "childPidFile": sb.pidFile}
+		"sleepMs": c.SleepMs, "childSleepMs": c.ChildSleepMs, "childPidFile": sb.pidFile, "childDetached": c.ChildDetached}
 	script := map[string]any{c.Cmd: b}
 	if c.Cmd != "get-plugin-metadata" {
 		// should the host ever ask for the metadata before another command, it gets an honest answer
@@ -1082,6 +1084,9 @@ func classesOf(c *Case, r *result) []string {
 		cl = append(cl, "exit=0")
 	}
 	cl = append(cl, "stdout="+c.Out, "stderr="+c.Err, "ctx="+c.Ctx, "via="+c.Via, "timingkind="+c.Timing)
+	if c.ChildSleepMs > 0 {
+		cl = append(cl, map[bool]string{true: "descendant-left-the-process-group", false: "descendant-in-the-process-group"}[c.ChildDetached])
+	}
 	if strings.HasPrefix(c.Out, "overcap") {
 		cl = append(cl, "stdout=overcap")
 	}
@@ -1407,6 +1412,9 @@ func timingCases(n int, seed uint64) []*Case {
 			c.Ctx, c.DeadlineMs, c.SleepMs = "cancel", 0, longSleepMs
 		case "nodeadline": // control: no deadline, no descendant: the call returns when the process exits
 			c.Ctx, c.DeadlineMs, c.CancelMs = "background", 0, 0
+		}
+		if c.ChildSleepMs > 0 {
+			c.ChildDetached = (i/len(kinds))%2 == 0 // alternately inside and outside the plugin's process group
 		}
 		out = append(out, c)
 	}
